@@ -39,6 +39,12 @@ MUTANTS = {
     "c02_globerr_only_first_pass": ("C02", "as.c", "        GlobErrFlag = True;\n    }", "        GlobErrFlag = (PassNo == 1);\n    }"),
     "c02_expected_still_counted": ("C02", "asmerr.c", "        free(pExpectError);\n        return;\n    }",
                                    "        free(pExpectError);\n        ErrorCount++;\n        return;\n    }"),
+    # (the coordinator's third seeded miss: printed jump errors discounted WITHOUT -Y)
+    "c02_discard_without_Y": ("C02", "asmpars.c", "if (ThrowErrors && (PassNo <= THROWERRORSMAXPASS)) {",
+                              "if (ThrowErrors || (PassNo <= THROWERRORSMAXPASS)) {"),
+    "c02_Y_never_discards": ("C02", "asmpars.c", "if (ThrowErrors && (PassNo <= THROWERRORSMAXPASS)) {",
+                             "if (ThrowErrors && (PassNo > THROWERRORSMAXPASS)) {"),
+    "c02_jmperr_not_remembered": ("C02", "asmerr.c", "        JmpErrors++;\n", "        JmpErrors += 0;\n"),
     # the defect of the originally pinned tree, re-introduced
     "c02_counters_16bit": ("C02", "asmerr.c", "LongWord             ErrorCount, WarnCount;", "Word                 ErrorCount, WarnCount;", 1,
                            [("asmerr.h", "extern LongWord ErrorCount, WarnCount;", "extern Word ErrorCount, WarnCount;")]),
@@ -72,6 +78,12 @@ MUTANTS = {
     # ---- C17 -------------------------------------------------------------------------------------------
     "c17_splitbyte_funcargs": ("C17", "tempresult.c", "        sprintf(Str, \"%\" PRId64, pResult->Contents.Int);\n        as_sdprcatf(p_dest, \"%s\", Str);",
                                "        as_sdprcatf(p_dest, \"%\" PRId64, pResult->Contents.Int);"),
+    # (the coordinator's third seeded miss: stale errno of a path search reaches ChkIO of a report writer -> fatal,
+    #  EmergencyStop deletes the code file)
+    "c17_macro_header_stale_errno": ("C17", "as.c", "        errno = 0;\n        fprintf(MacroFile, \"%s MACRO %s\\n\",",
+                                     "        fprintf(MacroFile, \"%s MACRO %s\\n\","),
+    "c17_macro_body_stale_errno": ("C17", "as.c", "        errno = 0;\n        fprintf(MacroFile, \"%s\\n\", OneLine.p_str);",
+                                   "        fprintf(MacroFile, \"%s\\n\", OneLine.p_str);"),
     # (the coordinator's seeded miss: -h changes the exponent letter the packed-decimal converter searches for)
     "c17_h_breaks_packed_decimal": ("C17", "motpseudo.c", "    pSplit = strchr(s, HexStartCharacter + ('e' - 'a'));", "    pSplit = strchr(s, 'E');"),
     "c17_s_sets_relaxed": ("C17", "as.c", "    MakeSectionList = !Negate;\n    return CMDOK;", "    MakeSectionList = !Negate;\n    DefRelaxedMode  = !Negate;\n    return CMDOK;"),
